@@ -189,6 +189,10 @@ def run(ctx):
             else:
                 R.violation('d', 'R5', '%s: the verifier checks the message\'s %s' % (fn_short(vfn), itemf), 'v2:verified-part:%s' % fn_short(vfn), '', f.loc())
 
+    # the nested map proof behind every set proof (shared with C09-d)
+    from props.shared import mkmap_verify_rules
+    mkmap_verify_rules(ctx, 'c')
+
     # ---- (e)
     ctx.field_cover('e', NODE, NODE + '::leaf_identifier', ret_consumer=True, consumers=['std::fmt::Arguments::new*', 'core::fmt::rt::Argument::new_display',
                                                                                           'std::fmt::rt::Argument::new_display', '*fmt::rt::Argument::new_*'],
